@@ -366,7 +366,9 @@ def distance_ndim_assinglearray(seq_t[:] s1, seq_t[:] s2, int ndim, **kwargs):
     """
     # Assumes C contiguous
     settings = DTWSettings(**kwargs)
-    return dtaidistancec_dtw.dtw_distance_ndim(&s1[0], len(s1), &s2[0], len(s2), ndim, &settings._settings)
+    # The buffers hold len/ndim points of ndim values each
+    return dtaidistancec_dtw.dtw_distance_ndim(&s1[0], len(s1) // ndim, &s2[0], len(s2) // ndim, ndim,
+                                               &settings._settings)
 
 
 def wps_length(Py_ssize_t l1, Py_ssize_t l2, **kwargs):
